@@ -26,7 +26,10 @@ RULE = ('per molecule of the C02 pool and per shipped scheme a family of '
         'AddHs + random renumbering of ALL atoms incl. H, kekulised). '
         '"Same molecule" = equal RDKit canonical SMILES (checked; others '
         'discarded and counted). Non-trivial = a family with >=4 distinct '
-        'inputs all evaluated; distinct by (scheme, canonical SMILES).')
+        'inputs all evaluated; distinct by (scheme, canonical SMILES).'
+        ' Quick tier: every third acyclic molecule, EVERY molecule with a '
+        'ring, plus 90 sampled E/Z alkenes per stereo-bearing scheme '
+        '(thorough: all 1302). ')
 ASSUMPTIONS = [
     'equivalence of inputs is defined by RDKit\'s own canonical SMILES round '
     'trip',
